@@ -38,7 +38,7 @@ def build(repo, findings):
     && (res is Ok ==> res->Ok_0 is Array && elems_view(res->Ok_0->Array_0.0@) =~= value_spec(assignment.value, old(shell).log@).els)'''),
     ])
     k = f.loop_ordinal(fn, r'for \(unexpanded_key, unexpanded_value\) in')
-    k2 = f.loop_ordinal(fn, r'for value in values \{\s*elements\.push')
+    k2 = f.loop_ordinal(fn, r'for value in values \{')
     # inner loop first (positions of the outer one do not move)
     f.loop(k2, fn_name=fn, iter_name='it2', invariant=[
         C('aux', 'it2.index@ + it2.iter.remaining().len() == values@.len()'),
